@@ -153,6 +153,7 @@ func VerifyFunction(P *Program, S *Specs, key string) (res *FuncResult) {
 				g := sc.evalBool(e.Expr)
 				o := x.oblige("ensures", e.Tags, out.pc, g, fn.Pos(), e.Text)
 				o.Reveal = e.Reveal
+				o.Slow = e.Slow
 				o.Name = fmt.Sprintf("%s/ensures#%d", x.Key, k+1)
 				if e.Label != "" {
 					o.Name = fmt.Sprintf("%s/ensures#%s", x.Key, e.Label)
